@@ -2,7 +2,8 @@
    Models: C15/Boundary.v (src/boundary.c), C15/Tree.v (src/tree.c: functional PR-octree, dump checker, gravity data). *)
 From Coq Require Import ZArith List Bool Reals Permutation.
 From RV Require Import Common.Num Common.RealNum C15.Boundary C15.Tree C15.Tree2 C15.Update C15.BoundaryProofs C15.TreeProofs C15.GravityProofs
-  C15.CanonProofs C15.ForestProofs C15.UpdateProofs C15.PruneProofs Gen.UsesTree C15.UsesTree.
+  C15.CanonProofs C15.ForestProofs C15.UpdateProofs C15.PruneProofs Gen.UsesTree C15.UsesTree
+  C15.PathModel C15.PathSpec C15.PathRun C15.PathProofsC C15.PathProofsI C15.PathGeoProofs.
 Import ListNotations.
 
 (* Periodic wrap of one coordinate (both C while-loops), any box length L>0, any x: once the fuel covers |x|/L the
@@ -67,20 +68,16 @@ Theorem C15_each_once : forall u pos pts l c r,
 Proof. exact each_once. Qed.
 Print Assumptions C15_each_once.
 
-(* Root boxes: a particle in the half-open box is put into the root box whose cell contains it; slot index and
-   geometry index agree. *)
-Theorem C15_root_inside : forall h n x, (0 < h)%Z -> (0 < n)%Z -> (- (n * h) <= x < n * h)%Z ->
+(* Root boxes (with the clamp of /repo da62396): a particle in the CLOSED box is put into the root box whose cell contains
+   it; slot index and geometry index agree; the upper border x = +boxsize/2 belongs to the last root box. *)
+Theorem C15_root_inside : forall h n x, (0 < h)%Z -> (0 < n)%Z -> (- (n * h) <= x <= n * h)%Z ->
   root_idx h n x = root_idx_new h n x /\ (0 <= root_idx h n x < n)%Z /\
   (Z.abs (x - root_centre h n (root_idx h n x)) <= h)%Z.
 Proof. exact root_inside_1d. Qed.
 Print Assumptions C15_root_inside.
-
-(* REFUTED at the closed upper border: x = +boxsize/2 is inside the box for reb_boundary_particle_is_in_box, but
-   the root index wraps to 0 and with two root boxes the particle is not inside the cell it is put in. *)
-Theorem C15_root_inside_closed_refuted : exists h n x, (0 < h)%Z /\ (0 < n)%Z /\ (- (n * h) <= x <= n * h)%Z /\
-  ~ (Z.abs (x - root_centre h n (root_idx h n x)) <= h)%Z.
-Proof. exact root_upper_border_refuted. Qed.
-Print Assumptions C15_root_inside_closed_refuted.
+Theorem C15_root_upper_border_last : forall h n, (0 < h)%Z -> (0 < n)%Z -> root_idx h n (n * h) = (n - 1)%Z.
+Proof. exact root_upper_border_last. Qed.
+Print Assumptions C15_root_upper_border_last.
 
 (* Cell masses and centres of mass are the sums over the cell's contents (non-negative masses; also when the
    total mass is 0 and the division is skipped). *)
@@ -128,7 +125,7 @@ Proof. exact wf_is_fresh_build. Qed.
 Print Assumptions C15_wf_is_fresh_build.
 
 (* Forest level (reb_tree_add_particle_to_tree with reb_get_rootbox_for_particle, flattened slot (k*Ny+j)*Nx+i):
-   inserting a particle of the half-open box keeps every root cell well formed w.r.t. the geometry of its slot, keeps
+   inserting a particle of the (closed) box keeps every root cell well formed w.r.t. the geometry of its slot, keeps
    every particle in the slot its coordinates select, and adds exactly that particle. *)
 Theorem C15_forest_insert_wf : forall u pos nx ny nz L, (0 < u)%Z -> (0 < nx)%Z -> (0 < ny)%Z -> (0 < nz)%Z ->
   forall f p f', wf_forest u pos nx ny nz L f -> inbox u nx ny nz L (pos p) -> fadd u pos nx ny nz L f p = Some f' ->
@@ -179,6 +176,23 @@ Theorem C15_flagged_removal_indices : forall u pos flagged l c t arr t', wf u po
 Proof. exact flagged_removal_indices. Qed.
 Print Assumptions C15_flagged_removal_indices.
 
+(* Centre of mass = mass-weighted mean of the contents for every cell of positive mass, and the pass over the whole
+   array of root cells (reb_simulation_update_tree_gravity_data).  The quadrupole members exist only under
+   #ifdef QUADRUPOLE, which the library build does not define: not modelled. *)
+Theorem C15_gravity_com_mean : forall part t, (forall p, In p (leaves t) -> (0 <= pm part p)%R) -> (0 < Sum (pm part) (leaves t))%R ->
+  let '(m, mx, my, mz) := gdata RNum part t in
+  (m = Sum (pm part) (leaves t) /\
+  mx = Sum (fun p => pm part p * GravityProofs.px part p) (leaves t) / Sum (pm part) (leaves t) /\
+  my = Sum (fun p => pm part p * py part p) (leaves t) / Sum (pm part) (leaves t) /\
+  mz = Sum (fun p => pm part p * pz part p) (leaves t) / Sum (pm part) (leaves t))%R.
+Proof. exact gravity_com_mean. Qed.
+Print Assumptions C15_gravity_com_mean.
+Theorem C15_gravity_forest : forall part (f : list (option cell)),
+  (forall t p, In (Some t) f -> In p (leaves t) -> (0 <= pm part p)%R) ->
+  Forall (fun o => match o with None => True | Some t => good part (leaves t) (gdata RNum part t) end) f.
+Proof. exact gravity_forest. Qed.
+Print Assumptions C15_gravity_forest.
+
 (* ===== round 3: one predicate "the tree is in use" for every decision site =====
    Regenerated from the current source (Gen/UsesTree.v): the conditions of reb_input_fields (rebuild after restore/copy),
    reb_simulation_add_local (insert), reb_simulation_move_to_com (update) ARE uses_tree for every gravity/collision mode and
@@ -200,6 +214,50 @@ Proof.
   apply Bool.eqb_prop in H. exact H.
 Qed.
 Print Assumptions C15_uses_tree_spec.
+
+(* ===== round 4: the in-place update in general (particles leaving cells, re-insertion from the root DURING the walk) =====
+   PATH model (C15/PathModel.v: cells = paths, particles carry their back pointer, leaves hold indices, the fix-up
+   particles[oldpos].c->pt = oldpos is an explicit write; compared with reb_simulation_update_tree on pre/post dumps).
+   Abstract theorem: for ANY inside test [ins] and octant choice [octf] such that (Hroute) a particle that passes the test of a
+   cell passes the test of the child its octant comparisons choose, (Hup) inside a child implies inside the parent, and
+   the octant/slot values are in range: if before the update every particle index < N sits in exactly one leaf with an exact
+   back pointer (flagged particles and particles that left their cells included), then after reb_simulation_update_tree
+   (when it does not stop with 'same coordinates' / resolution exhausted) every index < N' sits in exactly one leaf with an
+   exact back pointer (the fix-up is correct: leaf index = position of its particle), and every root cell is completely in
+   order (every leaf's particle passes the inside test of its cell, counts exact and >= 2, 8 children). *)
+Theorem C15_update_tree_accounted : forall (X : Type) (xd : X) ins octf same flg L nroot (okx : X -> Prop),
+  (forall p x, p <> [] -> (octf p x < 8)%nat) ->
+  (forall x, okx x -> ins [] x = true -> (octf [] x < nroot)%nat) ->
+  (forall p x, okx x -> (length p <= L)%nat -> ins p x = true -> ins (p ++ [octf p x]) x = true) ->
+  (forall p o x, p <> [] -> (length p <= L)%nat -> ins (p ++ [o]) x = true -> ins p x = true) ->
+  forall n0 roots P N st',
+  pupdate_tree X xd ins octf same flg L nroot (mkS X (Some (Node n0 roots)) P N) = Some st' ->
+  Acc X xd (mkS X (Some (Node n0 roots)) P N) -> Pok X xd okx P -> length roots = nroot ->
+  (forall ri, free (nth ri roots None)) ->
+  Acc X xd st' /\ Pok X xd okx (sP X st') /\
+  exists n1 roots', sF X st' = Some (Node n1 roots') /\ length roots' = nroot /\
+                    forall ri, full X xd ins L (sP X st') (nth ri roots' None) [ri].
+Proof. exact update_tree_accounted. Qed.
+Print Assumptions C15_update_tree_accounted.
+
+(* The instance with the exact integer geometry (the executable model that is compared with the library).  Hypotheses
+   now needed: exact arithmetic (Hroute/Hup are THEOREMS there: child_inside, inside_child_parent -- this is where the
+   remaining open finding tree:cell_centre_rounding is excluded: in binary64 a rounded cell centre breaks Hroute by one
+   ulp), an accounted pre-state whose cells have 8 children, and a run that does not stop with 'same coordinates' / at the
+   resolution limit.  The half-open-box hypothesis (okx) is GONE: since /repo da62396 the upper box border is routed to
+   the last root box, whose closed cell contains it (C15_root_inside for the closed box), so okx holds for every particle.
+   No tie/strictness hypothesis is needed for well-formedness (ties only matter for uniqueness, C15_canonical_unique). *)
+Theorem C15_update_tree_wf : forall u nx ny nz L, (0 < u)%Z -> (0 < nx)%Z -> (0 < ny)%Z -> (0 < nz)%Z ->
+  forall n0 roots P N st',
+  g_update u nx ny nz L (mkS XP (Some (Node n0 roots)) P N) = Some st' ->
+  Acc XP xd0 (mkS XP (Some (Node n0 roots)) P N) ->
+  length roots = Z.to_nat (nx * ny * nz) -> (forall ri, free (nth ri roots None)) ->
+  Acc XP xd0 st' /\
+  exists n1 roots', sF XP st' = Some (Node n1 roots') /\ length roots' = Z.to_nat (nx * ny * nz) /\
+    forall ri t, nth ri roots' None = Some t ->
+      wf u (fun i => fst (px XP xd0 (sP XP st') i)) L (rootc_slot u nx ny nz L ri) t.
+Proof. exact update_tree_wf. Qed.
+Print Assumptions C15_update_tree_wf.
 
 (* Non-vacuity: three particles in a cell of level 3 (half-width 8) around the origin, two of them in the same
    octant two levels deep: the insertions succeed, the result is a node of 3 whose leaf list is [2;1;0]-permuted,
